@@ -377,6 +377,14 @@ def run(prop, tier):
                     "(all are non-trivial: each exercises a different list position or character class); plus the mailbox-run "
                     "rule for the code-entry schedules")
     cov["samples"] += sub.get("samples", [])[:2]
+    # supplementary (no VIOLATION line comes from it): how the commands come by their code as a function of the command line,
+    # CliArgs.tla, every case on the real click parser and the real prologue of the commands
+    try:
+        from . import cliargs
+        with common.Workdir(prop + "cli") as wd3:
+            cov["supplementary"] = {"cli_args": cliargs.run_family(wd3, quick, seed)}
+    except Exception as e:
+        cov["supplementary"] = {"cli_args": {"error": repr(e)[:300]}}
     return v.finish(cov, assumptions=mailbox.ASSUMPTIONS + [
         "os.urandom is uniform (uniformity of words is decided structurally: one fresh byte per word through a bijection)",
         "nameplates such as '4\\n' or non-ASCII digits are executed but not judged (DESIGN 3.1)"])
